@@ -42,6 +42,7 @@ def run(F, rep, tier):
     binding_rule(F, rep)
     conditional_rule(F, rep)
     context_visibility_rule(F, rep)
+    declaration_order_rule(F, rep)
     # premises
     c13.scope_neutral_premise(F, rep, "dmntk_feel_evaluator", 25)
     import callgraph
@@ -675,3 +676,52 @@ def context_visibility_rule(F, rep):
         rep.violation(rid, "context", "build_context: an evaluated entry is not written to %s inside the entry loop: a later entry that refers to it sees null (or an outer binding)" % missing, where)
     else:
         rep.ok(rid, "context", "%d path(s): the entry is written to the result and to the scope before the next entry is evaluated" % len(outs))
+
+
+# ====================================================================================================== R01.8
+def declaration_order_rule(F, rep):
+    """for x in d1, y in d2 return e: the iteration contexts reach the cartesian iterator in the order of their declaration (the last one changes fastest). The builders walk the
+    declared contexts once; if that walk distributes them over several collections by kind and the evaluator closure then consumes collection after collection, the
+    declaration order between the kinds is lost (`for x in 1..2, y in [10, 20]` iterates y as the outer variable)."""
+    rid = rep.rule("R01.8", "iteration contexts of for / some / every reach the iterator in declaration order: one ordered collection, consumed in one pass")
+    n = 0
+    for simple in ("build_for", "build_some", "build_every"):
+        fn = B + simple
+        h = F.hir.get(fn)
+        if h is None:
+            rep.missing_anchor(rid, fn)
+            continue
+        c = closure_of(h)
+        where = "%s:%s" % (h["file"], h["line"])
+        key = "order:%s" % simple
+        if c is None:
+            rep.undecided(rid, key, "%s does not return a closure" % simple)
+            continue
+        # collections filled while walking the declared contexts
+        pushed = set()
+        for lp, _ in find_hir(h["body"], lambda x: x.get("k") == "Match" and x.get("src") == "ForLoopDesugar"):
+            if contains_node(c, lp) or contains_node(lp, c):
+                continue
+            for mc, _ in find_hir(lp["arms"], lambda x: x.get("k") == "MethodCall" and x.get("method") in ("push", "push_back", "insert", "extend")):
+                r = strip(mc["recv"])
+                if r.get("k") == "Path" and r.get("res") == "local":
+                    pushed.add(r["name"])
+        # collections consumed by loops of the closure that feed the iterator (add_*)
+        consumed = []
+        for lp, _ in find_hir(c["body"], lambda x: x.get("k") == "Match" and x.get("src") == "ForLoopDesugar"):
+            if not find_hir(lp["arms"], lambda x: x.get("k") == "MethodCall" and str(x.get("method", "")).startswith("add")):
+                continue
+            it = strip(lp["e"])
+            it = strip(it["args"][0]) if it.get("k") == "Call" and it.get("args") else it
+            names, root = c10.chain_of(it)
+            if root.get("k") == "Path" and root.get("res") in ("local", "upvar") and root.get("name") in pushed and root["name"] not in consumed:
+                consumed.append(root["name"])
+        n += 1
+        if len(consumed) > 1:
+            rep.violation(rid, key, "%s collects the declared iteration contexts into %d collections (%s) and feeds the iterator collection by collection: the declaration order "
+                          "between them is lost, e.g. `for x in 1..2, y in [10, 20] return x + y` iterates y as the outer variable" % (simple, len(consumed), ", ".join(consumed)), where)
+        elif len(consumed) == 1:
+            rep.ok(rid, key, "one ordered collection (%s), consumed in one pass" % consumed[0])
+        else:
+            rep.undecided(rid, key, "no collection that is filled from the declared contexts and consumed by a loop feeding the iterator was recognised")
+    rep.floor(rid, "iteration builders", n, 3)
